@@ -181,7 +181,7 @@ func init() {
 					}
 					w.Fault("conn.drop")
 					ret := p.Conn.RemovedAt
-					a.extra = append(a.extra, RegOp{Kind: "drop", Peer: p.Name, OK: true, Call: call, Return: ret, Desc: "conn.drop"})
+					a.extra = append(a.extra, RegOp{Kind: "drop", Peer: p.Name, OK: true, Call: p.Conn.RemoveBeganAt, Return: ret, Desc: "conn.drop"})
 					d.drops[p.Name] = append(d.drops[p.Name], ret)
 				}
 			})
@@ -247,7 +247,7 @@ func init() {
 					ops = append(ops, RegOp{Kind: "list", Peer: p.Name, Listing: l, OK: true, Call: end, Return: end + 1, ClientID: 999, Desc: "final"})
 				}
 				w.Stamp()
-				checkRegLinearizable(w, "C10/"+fam.name, ops, fam.single)
+				checkRegLinearizable(w, "C10/"+fam.name, splitDrops(ops, pr.Peers), fam.single)
 				// removal events: one per registry entry that existed when its owner went away is
 				// implied by the listing check for state; count events against granted/removed
 				granted, removedByCall := 0, 0
@@ -260,6 +260,10 @@ func init() {
 					}
 				}
 				left := 0
+				if !fam.single {
+					// (subscriptions of the peers' node management features to ours)
+					left += len(L.Dev.SubscriptionManager().SubscriptionsOnFeature(*FAddr(L.Addr, []uint{0}, 0)))
+				}
 				for _, sf := range pr.Servers {
 					if fam.single {
 						left += len(L.Dev.BindingManager().BindingsOnFeature(*sf.F.Address()))
